@@ -85,6 +85,11 @@ func (v *Vue) evalSlot(ctx VueContext, node *html.Node, slotScope *SlotScope) ([
 			// Found explicit slot content - evaluate it with the scoped props
 			result := []*html.Node{}
 
+			// The content was written by the user of the component: a <slot> inside it
+			// belongs to the user's template, not to this component (where it would
+			// find this very content again, without end).
+			ctx.SlotScope = nil
+
 			// If the slot content is a template with v-slot, evaluate it with the props
 			if slotContent.TemplateNode != nil {
 				// Extract scoped variable name from the template's v-slot attribute
@@ -137,7 +142,12 @@ func (v *Vue) evalSlot(ctx VueContext, node *html.Node, slotScope *SlotScope) ([
 	if inheritedSlotScopeData, ok := ctx.stack.EnvMap()["__slotScope__"]; ok {
 		if inheritedSlotScope, ok := inheritedSlotScopeData.(*SlotScope); ok {
 			if slotContent := inheritedSlotScope.GetSlot(slotName); slotContent != nil {
-				// Evaluate a private copy of the inherited slot content
+				// Evaluate a private copy of the inherited slot content. It was written in
+				// the page, where no slots are inherited: hide them while it is evaluated,
+				// so that a <slot> inside it cannot find this very content again.
+				ctx.stack.Push(nil)
+				defer ctx.stack.Pop()
+				ctx.stack.Set("__slotScope__", nil)
 				return v.evaluateSlotNodes(ctx, slotContent.Nodes)
 			}
 		}
